@@ -63,6 +63,7 @@ def run_op(nodes, src, n, kind, op, arg, case):
     old_name = n.name if n.kind != 'item' else 'item'
     reparse = True
     search_new = None
+    delim_search = False
     try:
         if op == 'rename':
             old_count = soup.count(old_name)
@@ -76,6 +77,7 @@ def run_op(nodes, src, n, kind, op, arg, case):
                 saved = n.name
                 want_text, want_canon = edited_render(nodes, n, lambda: setattr(n, 'name', arg), lambda: setattr(n, 'name', saved))
             search_new = (arg, old_name, old_count)
+            delim_search = (n.kind in ('env', 'list'))
         elif op == 'string':
             t.string = arg
             if n.kind == 'cmd':
@@ -120,6 +122,17 @@ def run_op(nodes, src, n, kind, op, arg, case):
             elif op == 'args-reassign-identity':
                 order = list(range(k))
                 t.args = t.args
+            elif op == 'args-fullslice-then-restore':
+                # a full slice is an independent argument list: assigning it back later restores the original order
+                order = list(range(k))
+                saved = t.args[:]
+                t.args.reverse()
+                t.args = saved
+            elif op == 'args-edit-unassigned-slice':
+                order = list(range(k))
+                part = t.args[0:k]
+                if k:
+                    part.pop()
             elif op == 'args-swap-ends-inplace':
                 order = list(range(k))
                 if k >= 2:
@@ -159,6 +172,11 @@ def run_op(nodes, src, n, kind, op, arg, case):
             raise H.Violation('C14:rename:not-found-under-new-name', case, 'find_all(%r) does not contain the renamed node' % new)
         if soup.count(old) != old_count - 1:
             raise H.Violation('C14:rename:old-name-count', case, 'count(%r) is %d, was %d before the rename' % (old, soup.count(old), old_count))
+        if delim_search:
+            if not any(h.expr is t.expr for h in soup.find_all('\\begin{%s}' % new)):
+                raise H.Violation('C14:rename:opening-not-found-under-new-name', case, 'find_all(\\begin{%s}) does not contain the renamed environment' % new)
+            if any(h.expr is t.expr for h in soup.find_all('\\begin{%s}' % old)):
+                raise H.Violation('C14:rename:still-found-under-old-opening', case, 'find_all(\\begin{%s}) still returns the renamed environment' % old)
     if reparse and want_canon is not None:
         o = D.parse(got, 'C14:reparse', case)
         c = O.canon_tree(o)
@@ -201,7 +219,8 @@ def check_doc(nodes, src, case, res):
         if kind in ('cmd', 'env', 'item') and na >= 1 and all(a.kind != 'cmdarg' for a in n.args):
             pool = [('args-reversed', None), ('args-prefix', na - 1), ('args-tail', None), ('args-reverse-inplace', None),
                     ('args-reverse-reassign-own-list', None), ('args-reassign-identity', None), ('args-step', None),
-                    ('args-swap-ends-inplace', None), ('args-slice-assign-inplace', None), ('args-sort-inplace', None)]
+                    ('args-swap-ends-inplace', None), ('args-slice-assign-inplace', None), ('args-sort-inplace', None),
+                    ('args-fullslice-then-restore', None), ('args-edit-unassigned-slice', None)]
             if na >= 3:
                 pool.append(('args-permute', tuple([1, 2, 0] + list(range(3, na)))))
             ops.append(pool[k % len(pool)])
